@@ -15,6 +15,8 @@ structure Decl where
   isDefault : Bool
   /-- local names (declarations or import bindings) the public signature refers to -/
   refs : List Nat
+  /-- qualified references `l.x` of the public signature: (local name, member) -/
+  qrefs : List (Nat × Nat) := []
   deriving DecidableEq, Repr, Inhabited
 
 structure Mod where
@@ -27,12 +29,14 @@ structure Mod where
   stars : List Nat
   /-- `export { local as exported }` -/
   exportLocal : List (Nat × Nat)
+  /-- `import * as local from module` -/
+  nsImports : List (Nat × Nat) := []
   deriving Repr, Inhabited
 
 abbrev World := List Mod
 
 def World.mod (w : World) (m : Nat) : Mod :=
-  w.getD m { decls := [], imports := [], exportFrom := [], stars := [], exportLocal := [] }
+  w.getD m { decls := [], imports := [], exportFrom := [], stars := [], exportLocal := [], nsImports := [] }
 
 inductive Task where
   /-- everything the module exports (`star` / `star with default`) -/
@@ -42,6 +46,8 @@ inductive Task where
   /-- a name used inside the module: a declaration or an import binding -/
   | local (m : Nat) (l : Nat)
   | decl (m : Nat) (name : Nat)
+  /-- a qualified name `l.x` used inside the module -/
+  | qual (m : Nat) (l : Nat) (x : Nat)
   deriving DecidableEq, Repr, Inhabited
 
 structure State where
@@ -72,6 +78,7 @@ def keepF (wd : Bool) (p : Nat × Nat × Nat) : Bool := wd || p.1 != 0
 
 def findDecl (md : Mod) (l : Nat) : Option Decl := md.decls.find? fun d => d.name == l
 def findImport (md : Mod) (l : Nat) : Option (Nat × Nat × Nat) := md.imports.find? fun p => p.1 == l
+def findNsImport (md : Mod) (l : Nat) : Option (Nat × Nat) := md.nsImports.find? fun p => p.1 == l
 def findLocalExport (md : Mod) (n : Nat) : Option (Nat × Nat) := md.exportLocal.find? fun p => p.1 == n
 def findFrom (md : Mod) (n : Nat) : Option (Nat × Nat × Nat) := md.exportFrom.find? fun p => p.1 == n
 def exportedFor (wd : Bool) (d : Decl) : Bool := d.exported && (wd || !d.isDefault)
@@ -134,12 +141,25 @@ def stepLocal (w : World) (s : State) (m l : Nat) : State :=
   | none =>
     match findImport md l with
     | some p => { s with imports := ins (m, l) s.imports, work := s.work ++ [.reqName p.2.1 p.2.2] }
-    | none => s
+    | none =>
+      -- a namespace import used as a whole (`typeof ns`): everything but `default`
+      match findNsImport md l with
+      | some p => { s with imports := ins (m, l) s.imports, work := s.work ++ [.reqAll p.2 false] }
+      | none => s
+
+/-- `l.x`: through a namespace import it is the name `x` of the imported module; otherwise the
+local name `l` as a whole -/
+def stepQual (w : World) (s : State) (m l x : Nat) : State :=
+  let md := w.mod m
+  match findNsImport md l with
+  | some p => { s with imports := ins (m, l) s.imports, work := s.work ++ [.reqName p.2 x] }
+  | none => { s with work := s.work ++ [.local m l] }
 
 def stepDecl (w : World) (s : State) (m name : Nat) : State :=
   let md := w.mod m
   match findDecl md name with
-  | some d => { s with decls := ins (m, name) s.decls, work := s.work ++ d.refs.map fun r => Task.local m r }
+  | some d => { s with decls := ins (m, name) s.decls,
+                       work := s.work ++ (d.refs.map fun r => Task.local m r) ++ d.qrefs.map fun q => Task.qual m q.1 q.2 }
   | none => s
 
 def step (w : World) (s : State) (t : Task) : State :=
@@ -151,6 +171,7 @@ def step (w : World) (s : State) (t : Task) : State :=
     | .reqName m n => stepReqName w s m n
     | .local m l => stepLocal w s m l
     | .decl m name => stepDecl w s m name
+    | .qual m l x => stepQual w s m l x
 
 /-- process the worklist (first in, first out) -/
 def run (w : World) : Nat → State → Option State
